@@ -171,14 +171,10 @@ inline ForkOut run_forked(const std::function<void(char* buf, size_t cap)>& fn, 
 
 // Main wrapper: the whole exploration runs in a forked child so that a crash of the code under test is observed and
 // reported as a violation (with the last progress marker) instead of killing the reporter.
-inline std::string& progress_marker_path() { static std::string p; return p; }
-inline void progress(const std::string& s) {
-    static char* shm = nullptr;
-    (void)shm;
-    const std::string& p = progress_marker_path();
-    if (p.empty()) return;
-    FILE* f = fopen(p.c_str(), "w"); if (f) { fputs(s.c_str(), f); fclose(f); }
-}
+// progress marker: the replay body of the case about to be executed, kept in shared memory so that it survives a crash of the child
+inline char*& progress_shm() { static char* p = nullptr; return p; }
+static const size_t PROGRESS_CAP = 1 << 20;
+inline void progress(const std::string& replay_body) { char* p = progress_shm(); if (!p) return; size_t n = std::min(replay_body.size(), PROGRESS_CAP - 1); memcpy(p, replay_body.data(), n); p[n] = 0; }
 
 inline int run_main(int argc, char** argv, const std::string& property, const std::function<void(Result&)>& explore,
                     const std::function<int(const Replay&, Result&)>& replay) {
@@ -191,7 +187,7 @@ inline int run_main(int argc, char** argv, const std::string& property, const st
         for (auto& v : R.violations) printf("  key=%s\n  what=%s\n", v.key.c_str(), v.what.c_str());
         return rc ? 1 : 0;
     }
-    progress_marker_path() = a.out + ".progress";
+    progress_shm() = (char*)mmap(nullptr, PROGRESS_CAP, PROT_READ | PROT_WRITE, MAP_SHARED | MAP_ANONYMOUS, -1, 0); progress_shm()[0] = 0;
     fflush(nullptr);
     pid_t pid = fork();
     if (pid == 0) {
@@ -205,14 +201,14 @@ inline int run_main(int argc, char** argv, const std::string& property, const st
     int st = 0; waitpid(pid, &st, 0);
     bool ok = WIFEXITED(st) && WEXITSTATUS(st) == 0 && access(a.out.c_str(), R_OK) == 0;
     if (!ok) {
-        std::string last; { std::ifstream f(progress_marker_path()); std::getline(f, last, '\0'); }
+        std::string last(progress_shm());
         std::string how = WIFSIGNALED(st) ? ("signal " + std::to_string(WTERMSIG(st))) : ("exit status " + std::to_string(WIFEXITED(st) ? WEXITSTATUS(st) : -1));
-        R.counters["evaluations"] = 1; R.counters["states"] = 1; R.counters["transitions"] = 1;
-        R.exhaustive = false;
-        R.violation("crash:" + how, "the code under test terminated the exploration (" + how + "); last case started: " + last, "last=" + last + "\n");
+        R.counters["evaluations"] = 1; R.counters["states"] = 1; R.counters["transitions"] = 1; R.counters["distinct_nontrivial"] = 2;
+        R.exhaustive = false; R.sample(jesc(last.substr(0, 300)));
+        std::string one = last; for (char& ch : one) if (ch == '\n') ch = ' ';
+        R.violation("crash:" + how, "the code under test terminated the exploration (" + how + ") while executing the case: " + one.substr(0, 400), last);
         R.write();
     }
-    unlink(progress_marker_path().c_str());
     return 0;
 }
 
